@@ -29,6 +29,8 @@ BACKOFFS = [
     {'kind': 'exponential', 'base': 2.0, 'factor': 2.0, 'max': 1.5},   # cap below the first delay
     {'kind': 'exponential', 'base': 8.0, 'factor': 0.5, 'max': 5.0},   # decaying delays: capped first, below the cap later
     {'kind': 'exponential', 'base': 1.0, 'factor': 1.0, 'max': 1.25},  # constant base: the jitter alone decides which delays hit the cap
+    {'kind': 'fibonacci', 'multiplier': 1.0, 'max': 'default'}, {'kind': 'fibonacci', 'multiplier': 0.25, 'max': 'default'},   # cap left to its documented default
+    {'kind': 'exponential', 'base': 1.0, 'factor': 2.0, 'max': 'default'},
     {'kind': 'fibonacci', 'multiplier': 1.0, 'max': 100.0}, {'kind': 'fibonacci', 'multiplier': 0.5, 'max': 1.0},
     {'kind': 'fibonacci', 'multiplier': 2.0, 'max': None}, {'kind': 'fibonacci', 'multiplier': 3.0, 'max': 2.0},
 ]
@@ -53,7 +55,7 @@ class C09(Check):
         "cases: (a) enumerated: every outcome word of length n+2 over {success, listed code, unlisted code, batch-level listed error, listed "
         "exception, subclass of a listed exception, unlisted exception} for n in 0..2 (quick) / 0..3 (thorough) attempts x sync / async "
         "client, rotating over request kind {single, batch, notification}, strategy placement {client-wide, per-request, per-request None "
-        "overriding a client-wide one, none}, 11 backoff configurations (periodic / exponential / Fibonacci, caps below the first delay, decaying factors, "
+        "overriding a client-wide one, none}, 14 backoff configurations (periodic / exponential / Fibonacci, caps below the first delay, decaying factors, "
         "max None) and 5 jitter sequences; (b) Hypothesis: attempts 0..4, codes / exceptions sets {None, empty, one, several}, backoff "
         "parameters from short decimals, drawn jitter sequences, drawn outcome words. Oracle: reference retry model -> number of transport "
         "calls, the recorded time.sleep / asyncio.sleep arguments (isclose; none before the first or after the last send), the returned "
@@ -249,7 +251,7 @@ class C09(Check):
             classes.append('exhausted')
         if retried and any(j != 0 for j in (s.get('jitter') or [])):
             classes.append('jitter/nonzero')
-        if retried and s['backoff'].get('max') is not None and any(ch.close(x, s['backoff']['max']) for x in sleeps):
+        if retried and isinstance(s['backoff'].get('max'), (int, float)) and any(ch.close(x, s['backoff']['max']) for x in sleeps):
             classes.append('cap/hit')
         return Outcome(discs, retried or exhausted, classes)
 
